@@ -1,18 +1,21 @@
 ----------------------------- MODULE Trace_C09 -----------------------------
 EXTENDS XrlXRFJump, XrlChunks
+\* the same module judges events of the C library (check C09) and of the Java implementation (check C19, second binding)
+PropLabel == IF "XRL_PROP" \in DOMAIN IOEnv THEN IOEnv.XRL_PROP ELSE "C09"
+ImplLabel == IF "XRL_IMPL" \in DOMAIN IOEnv THEN IOEnv.XRL_IMPL ELSE "C"
 Show(w) == IF w.ok THEN FStr(w.v) ELSE "error"
 AtBad(i, ev, at) ==
-  { [prop |-> "C09", line |-> i, fn |-> "CS_FluorShell", Z |-> ev.Z, m |-> s, E |-> FStr(at.E), got |-> [ok |-> RowOk(at.shell, s), v |-> FStr(RowVal(at.shell, s))], want |-> {Show(ShellWant(ev, at, s))}] :
+  { [prop |-> PropLabel, impl |-> ImplLabel, line |-> i, fn |-> "CS_FluorShell", Z |-> ev.Z, m |-> s, E |-> FStr(at.E), got |-> [ok |-> RowOk(at.shell, s), v |-> FStr(RowVal(at.shell, s))], want |-> {Show(ShellWant(ev, at, s))}] :
     s \in { s \in at.shell.lo..at.shell.hi : ~Agree9(ShellWant(ev, at, s), RowOk(at.shell, s), RowVal(at.shell, s)) } }
-  \cup { [prop |-> "C09", line |-> i, fn |-> "CSb_FluorShell", Z |-> ev.Z, m |-> s, E |-> FStr(at.E), got |-> [ok |-> RowOk(at.shellb, s), v |-> FStr(RowVal(at.shellb, s))]] :
+  \cup { [prop |-> PropLabel, impl |-> ImplLabel, line |-> i, fn |-> "CSb_FluorShell", Z |-> ev.Z, m |-> s, E |-> FStr(at.E), got |-> [ok |-> RowOk(at.shellb, s), v |-> FStr(RowVal(at.shellb, s))]] :
          s \in { s \in at.shell.lo..at.shell.hi : ~Agree9(Barn(ev, IF RowOk(at.shell, s) THEN Val_(RowVal(at.shell, s)) ELSE Fail), RowOk(at.shellb, s), RowVal(at.shellb, s)) } }
-  \cup { [prop |-> "C09", line |-> i, fn |-> "CS_FluorLine", Z |-> ev.Z, m |-> m, E |-> FStr(at.E), got |-> [ok |-> RowOk(at.line, m), v |-> FStr(RowVal(at.line, m))], want |-> { Show(w) : w \in LineWant(ev, at, m) }] :
+  \cup { [prop |-> PropLabel, impl |-> ImplLabel, line |-> i, fn |-> "CS_FluorLine", Z |-> ev.Z, m |-> m, E |-> FStr(at.E), got |-> [ok |-> RowOk(at.line, m), v |-> FStr(RowVal(at.line, m))], want |-> { Show(w) : w \in LineWant(ev, at, m) }] :
          m \in { m \in at.line.lo..at.line.hi : ~\E w \in LineWant(ev, at, m) : Agree9(w, RowOk(at.line, m), RowVal(at.line, m)) } }
-  \cup { [prop |-> "C09", line |-> i, fn |-> "CSb_FluorLine", Z |-> ev.Z, m |-> m, E |-> FStr(at.E), got |-> [ok |-> RowOk(at.lineb, m), v |-> FStr(RowVal(at.lineb, m))]] :
+  \cup { [prop |-> PropLabel, impl |-> ImplLabel, line |-> i, fn |-> "CSb_FluorLine", Z |-> ev.Z, m |-> m, E |-> FStr(at.E), got |-> [ok |-> RowOk(at.lineb, m), v |-> FStr(RowVal(at.lineb, m))]] :
          m \in { m \in at.line.lo..at.line.hi : ~Agree9(Barn(ev, IF RowOk(at.line, m) THEN Val_(RowVal(at.line, m)) ELSE Fail), RowOk(at.lineb, m), RowVal(at.lineb, m)) } }
 \* "the call fails" also for a caller without an error slot: same bits as with one (the 0 sentinel below the edge)
-NoSlot(i, ev, at) == { [prop |-> "C09", line |-> i, fn |-> r[1], Z |-> ev.Z, E |-> FStr(at.E), why |-> "called without an error slot the function returned something else than with one", cells |-> r[2].nd, first_macro |-> r[2].ndm] :
+NoSlot(i, ev, at) == { [prop |-> PropLabel, impl |-> ImplLabel, line |-> i, fn |-> r[1], Z |-> ev.Z, E |-> FStr(at.E), why |-> "called without an error slot the function returned something else than with one", cells |-> r[2].nd, first_macro |-> r[2].ndm] :
                        r \in { r \in {<<"CS_FluorShell", at.shell>>, <<"CSb_FluorShell", at.shellb>>, <<"CS_FluorLine", at.line>>, <<"CSb_FluorLine", at.lineb>>} : r[2].nd # 0 } }
-BadOf(i, ev) == IF ev.k = "xrf" THEN UNION { AtBad(i, ev, ev.at[j]) \cup NoSlot(i, ev, ev.at[j]) : j \in 1..Len(ev.at) } ELSE {[prop |-> "C09", line |-> i, why |-> "unexpected event"]}
+BadOf(i, ev) == IF ev.k = "xrf" THEN UNION { AtBad(i, ev, ev.at[j]) \cup NoSlot(i, ev, ev.at[j]) : j \in 1..Len(ev.at) } ELSE {[prop |-> PropLabel, impl |-> ImplLabel, line |-> i, why |-> "unexpected event"]}
 Judged == JudgedWith(BadOf)
 ============================================================================
